@@ -134,14 +134,15 @@ Definition C10_qos01_statement : Prop :=
   (forall first id, k_ppc (k s) = PRecv first -> ~ In (Puback id) (g_owed (g s))).
 
 (* exactly once (default mode): no open handshake has seen more than one accepted delivery,
-   and PUBCOMP is written only after exactly one *)
+   and PUBCOMP is never written for an open handshake without one (a concurrent clean-session
+   Reset may have closed the handshake meanwhile) *)
 Definition default_mode (s : st) : Prop :=
   cf_callback (k_cfg (k s)) = true /\ cf_early (k_cfg (k s)) = false.
 
 Definition C10_exactly_once_statement : Prop :=
   forall es s, run step init es = Some s ->
   (forall id n, amap_get (g_hs (g s)) id = Some n -> n <= 1) /\
-  (forall pid id, k_ppc (k s) = PRelComp pid id -> default_mode s -> amap_get (g_hs (g s)) id = Some 1).
+  (forall pid id, k_ppc (k s) = PRelComp pid id -> default_mode s -> amap_get (g_hs (g s)) id <> Some 0).
 
 (* every PUBREL is answered by PUBCOMP: whenever the processor is back in Receive no PUBCOMP is owed *)
 Definition C10_pubrel_answered_statement : Prop :=
